@@ -32,7 +32,7 @@ STUBS = ['pure stub processes with symbolic constant timesteps and deltas '
          'recording user Emitter whose hook snapshots the store by the '
          'harness\'s own traversal; Serializer for the proxy types registered '
          'in the public serializer_registry (RAMEmitter configuration)']
-ASSUMPTIONS = ['integer time, integer emit_step; units/custom serializers are '
+ASSUMPTIONS = ['integer time, integer emit_step, plus one configuration with concrete dyadic float timesteps (0.25, 0.5, 1.0, 1.5) chosen by forking - times concrete, values symbolic; units/custom serializers are '
                'exercised only on the concretised RAMEmitter configuration '
                'without quantities (pint is outside the solver claim)']
 BOUNDS = {'quick': 'N=2 processes, timesteps [1,3], run_for(<=6) then run_for(<=2) (emit_step 1: <=3, <=3), '
@@ -107,6 +107,10 @@ def jobs(tier):
                             es=es, nflags=2 if q else 4,
                             budget_s=100 if q else 1200,
                             crosscheck=0 if q else 20))
+    for es in (1, 2):
+        out.append(dict(name='dyadic-es%d' % es, via='schema', emitter='rec',
+                        B=3, IVS=[0, 0], es=es, nflags=1, dyadic=True,
+                        budget_s=100 if q else 600))
     for flavor in ('none', 'flow'):
         for k in range(7):
             out.append(dict(name='history-%s-%d' % (flavor, k), part='history',
@@ -228,7 +232,14 @@ def body(ctx, cfg):
         return body_history(ctx, cfg)
     CTX.clear()
     CTX['ctx'] = ctx
-    CTX['ts'] = {n: ctx.int('ts', 1, cfg['B']) for n in ('p0', 'p1')}
+    if cfg.get('dyadic'):
+        # off-grid times: concrete dyadic floats (exact in binary) chosen by
+        # the solver-driven choice; values stay symbolic
+        grid = [0.5, 1.0, 1.5, 0.25]
+        CTX['ts'] = {n: grid[ctx.choice('tsf', len(grid))]
+                     for n in ('p0', 'p1')}
+    else:
+        CTX['ts'] = {n: ctx.int('ts', 1, cfg['B']) for n in ('p0', 'p1')}
     CTX['deltas'] = {}
     if cfg['emitter'] == 'ram':
         CTX['deltas'] = _LazyDeltas(ctx, cfg['dlo'], cfg['dhi'])
@@ -257,7 +268,10 @@ def body(ctx, cfg):
     if not all(flags.values()):
         ctx.goal('flag off')
     es = cfg['es']
-    ivs = [ctx.int('iv', 1, mx) for mx in cfg['IVS']]
+    if cfg.get('dyadic'):
+        ivs = [[1.0, 1.75, 2.5][ctx.choice('ivf', 3)] for _ in cfg['IVS']]
+    else:
+        ivs = [ctx.int('iv', 1, mx) for mx in cfg['IVS']]
     ctx.note('emit_step', es)
     ctx.note('flags', {'/'.join(k): v for k, v in flags.items()})
     e, recs = run_engine(ctx, cfg, flags, es, ivs)
@@ -294,9 +308,10 @@ def body(ctx, cfg):
         ev += [r['nb'] == i + 1 for i, r in enumerate(hist)]
         ctx.claim('C12.every_event', AND(ev), sig='every_event', info=info)
     else:
-        if ctx.symbolic and 'emit_step greater than a timestep' not in \
-                ctx.goals and ctx.solver.check_assuming(
-                    (CTX['ts']['p0'] < es).s) == 'sat':
+        lt = CTX['ts']['p0'] < es
+        if lt is True or (ctx.symbolic and lt is not False and
+                          'emit_step greater than a timestep' not in ctx.goals
+                          and ctx.solver.check_assuming(lt.s) == 'sat'):
             ctx.goal('emit_step greater than a timestep')
         # reference run with emit_step 1, same symbolic constants and deltas
         e1, recs1 = run_engine(ctx, cfg, flags, 1, ivs)
